@@ -1,11 +1,17 @@
 /-
 C02 — Delivery receipts are attributed to the message they report on.
 Tier 2, PARTIAL in the same sense as C01: single-step theorems over the model of
-get_delivery / get_segmented / the receipt branch of `_handle_request`; the all-orders claim
-for segmented messages is covered by the correspondence + predicate and by finite tests here.
+get_delivery / get_segmented / the receipt branch of `_handle_request`; history-level attribution for unsegmented
+messages; and, for segmented messages, the ALL-ORDERS theorem `segmented_receipts_any_order` (Lemmas/SegReceipts.lean):
+from the state in which every segment of a message has been accepted, the receipts for its n segments in ANY order give
+n-1 placeholders and then exactly one receipt with the message's identity — the last failing one, or the first when none
+fails.  Not a theorem: other traffic interleaved between those receipts (frame property), and that the accepted state is
+reached from the empty store by the responses (shown for a concrete message by kernel evaluation, tied by the
+correspondence in general).
 -/
 import SmppVerif.Lemmas.Ledger
 import SmppVerif.Lemmas.RcptHistory
+import SmppVerif.Lemmas.SegReceipts
 
 namespace SmppVerif.Props.C02
 open SmppVerif SmppVerif.Corr SmppVerif.Lemmas.Corr SmppVerif.Lemmas.Expiry SmppVerif.Lemmas.Ledger
@@ -161,6 +167,49 @@ theorem receipts_aggregate (l : List (Nat × Int)) (hne : l ≠ []) (hl : ∀ p 
     have := maxCode_ge l p hp
     omega
 
+/-! ### segmented messages: any order of the receipts -/
+
+open SmppVerif.Lemmas.SegReceipts in
+/-- EXACTLY ONE RECEIPT, ONLY AFTER ALL SEGMENTS, IN WHATEVER ORDER: let a message of `n` segments be accepted in full
+    (`Inv A [] none s`: nothing outstanding in the request store, every segment's SMSC id recorded with its submit_sm, every
+    segment registered under the message's reference with status SENT).  Then for EVERY permutation `order` of 1..n, handling
+    the receipts of the segments in that order hands the hook `n - 1` placeholders (nothing) and then exactly one receipt,
+    carrying the message's log_id and extra_data. -/
+theorem segmented_receipts_any_order (A : Accepted) (now : Nat) (order : List Nat) (s : CState)
+    (hperm : order.Perm (List.range' 1 A.n)) (hinv : Inv A [] none s) (hnow : now ≤ s.ttlDeliv) :
+    ∃ r, pick A none order = some r ∧
+      (runReceipts A now s order).2 =
+        List.replicate (A.n - 1) Handled.placeholder ++ [.msg { r with logId := A.L, extra := A.X }] :=
+  all_orders A now order s hperm hinv hnow
+
+open SmppVerif.Lemmas.SegReceipts in
+/-- … and it is a failing receipt if any segment's receipt reports an error: the LAST failing one in arrival order … -/
+theorem picked_is_last_failing (A : Accepted) (pre post : List Nat) (j : Nat)
+    (hj : codeOf (A.rc j) > 0) (hpost : ∀ k ∈ post, ¬ codeOf (A.rc k) > 0) :
+    pick A none (pre ++ j :: post) = some (A.rc j) :=
+  pick_last_failing A pre post j none hj hpost
+
+open SmppVerif.Lemmas.SegReceipts in
+/-- … otherwise the first receipt that arrived. -/
+theorem picked_is_first_when_none_fails (A : Accepted) (i : Nat) (rest : List Nat)
+    (h : ∀ k ∈ rest, ¬ codeOf (A.rc k) > 0) : pick A none (i :: rest) = some (A.rc i) :=
+  pick_first A i rest h
+
+open SmppVerif.Lemmas.SegReceipts in
+/-- non-vacuity: the state reached from the empty correlator by storing the three segments of a message and handling their
+    three accepted responses satisfies the hypothesis (kernel evaluation of the model) -/
+example :
+    let seg (sq sseq : Nat) : Msg :=
+      { kind := .submitSm, seq := sq, logId := 7, extra := 8, hasSar := true, sarRef := 4, sarSeq := sseq, sarTotal := 3 }
+    let ok (sq : Nat) : Msg := { kind := .submitSmResp, seq := sq, msgId := [sq] }
+    let s0 : CState := { ttlResp := 1000, ttlDeliv := 100000 }
+    let s1 := (put (put (put s0 1 (seg 1 1)).1 1 (seg 2 2)).1 1 (seg 3 3)).1
+    let s2 := (handleResponse (handleResponse (handleResponse s1 2 (ok 1)).1 2 (ok 2)).1 2 (ok 3)).1
+    s2.store = [] ∧
+    (∀ i ∈ [1, 2, 3], aget s2.delivStore [i] = some (2, seg i i) ∧ aget s2.segStore i = some (4, i)) ∧
+    (aget s2.segStatus 4).map (fun st => (st.status, st.lastReceipt)) = some ([(1, sSent), (2, sSent), (3, sSent)], none) := by
+  decide +kernel
+
 /-! ### tests (finite, labelled as tests): a 3-segment message fully accepted; receipts in all
     6 orders with an error on segment 2: placeholder, placeholder, then the failing receipt
     with the message's identity. -/
@@ -191,3 +240,6 @@ end SmppVerif.Props.C02
 #print axioms SmppVerif.Props.C02.receipts_aggregate
 #print axioms SmppVerif.Props.C02.receipt_attributed_after_any_history
 #print axioms SmppVerif.Props.C02.unknown_receipt_after_any_history
+#print axioms SmppVerif.Props.C02.segmented_receipts_any_order
+#print axioms SmppVerif.Props.C02.picked_is_last_failing
+#print axioms SmppVerif.Props.C02.picked_is_first_when_none_fails
